@@ -39,7 +39,10 @@ size_t mpt_node_move(MPT_STRUCT(node) **from, MPT_STRUCT(node) *dst)
 			mpt_gnode_add(last, 0, curr);
 			last = curr;
 			++move;
-			*from = src;
+			/* source list lost first element */
+			if (*from == curr) {
+				*from = src;
+			}
 			continue;
 		}
 		/* move node children */
